@@ -128,10 +128,6 @@ impl TableM {
         (hs, rs)
     }
 
-    /// A matched row that an open transaction other than `me` inserted (carries no lock).
-    pub fn touches_foreign_insert(&self, me: Option<usize>, ids: &[u64]) -> bool {
-        ids.iter().any(|id| matches!(self.rows[id].ins_by, Some(h) if Some(h) != me))
-    }
 }
 
 impl Model {
@@ -182,6 +178,10 @@ impl Model {
         let tab = &mut self.tabs[t];
         tab.rows.insert(id, MRow { vals: v.clone(), alive: true, ins_by: me });
         tab.max_id = tab.max_id.max(id);
+        if let Some(h) = me {
+            // a row inserted by an open transaction is its own until the transaction ends
+            tab.locks.insert(id, h);
+        }
         if let Some(h) = me {
             self.txs[h].kinds |= 1;
         }
